@@ -316,9 +316,11 @@ class Gen:
         if selfmut:
             q = sig(toks, p + 1)
             if not (toks[q].s == "mut" and toks[sig(toks, q + 1)].s == "self"):
-                raise Lost("R5 requested but %s has no `mut self`" % it.name)
-            edits.append((q, sig(toks, q + 1) - q, ""))
-            self.count("R5")
+                # the function takes plain `self` (e.g. after a refactoring): `let mut this = self;` is still a faithful rendering
+                self.count("R5-plain-self")
+            else:
+                edits.append((q, sig(toks, q + 1) - q, ""))
+                self.count("R5")
         w = o.get("world")
         if w:
             ins = "Tracked(%s): Tracked<&mut World>" % self.world if w == "mut" else "Tracked(%s): Tracked<&World>" % self.world
